@@ -60,6 +60,20 @@ func wrapItems(items []string, wrap, sep string) string {
 		}
 		sb.WriteString("</ul>")
 		return sb.String()
+	case "indent":
+		// pretty-printed markup: every item in its own li, white space text nodes everywhere,
+		// the item itself wrapped once more
+		var sb strings.Builder
+		sb.WriteString("<ul>\n")
+		for _, it := range items {
+			if strings.HasPrefix(it, "<a") {
+				sb.WriteString("  <li>\n    " + it + "\n  </li>\n")
+			} else {
+				sb.WriteString("  <li class=\"zqcur\">\n    <span>" + it + "</span>\n  </li>\n")
+			}
+		}
+		sb.WriteString("</ul>")
+		return sb.String()
 	case "span":
 		var sb strings.Builder
 		sb.WriteString("<div>")
@@ -132,8 +146,9 @@ func collectAnchors(n *html.Node, out *[]string) {
 }
 
 // linkFacts: lexical facts about a returned URL string.
-func linkFacts(s string, page *nurl.URL, targets map[string]bool) map[string]interface{} {
-	f := map[string]interface{}{"empty": s == "", "absolute": false, "http": false, "samehost": false, "istarget": false}
+func linkFacts(s string, page *nurl.URL, targets map[string]bool, trimTargets map[string]bool) map[string]interface{} {
+	f := map[string]interface{}{"empty": s == "", "absolute": false, "http": false, "samehost": false, "istarget": false,
+		"trimtarget": trimTargets[s] || trimTargets[strings.TrimSuffix(s, "/")]}
 	if s == "" {
 		return f
 	}
@@ -283,9 +298,17 @@ func runPager(c Case, e *env) []Event {
 	var hrefs []string
 	collectAnchors(doc, &hrefs)
 	targets := map[string]bool{}
+	// the same anchors resolved against the page URL WITHOUT its trailing slash (only used to
+	// classify a known defect, never to accept a link)
+	trimTargets := map[string]bool{}
+	trimmed := *pu
+	trimmed.Path = strings.TrimSuffix(trimmed.Path, "/")
 	for _, h := range hrefs {
 		if t, ok := normaliseTarget(h, pu); ok {
 			targets[t] = true
+		}
+		if t, ok := normaliseTarget(h, &trimmed); ok {
+			trimTargets[t] = true
 		}
 	}
 	if showInputs {
@@ -301,7 +324,7 @@ func runPager(c Case, e *env) []Event {
 		return []Event{call, ev}
 	}
 	obs := map[string]interface{}{"err": out.err != nil || out.res == nil, "next": 0, "prev": 0,
-		"nextfacts": linkFacts("", pu, targets), "prevfacts": linkFacts("", pu, targets), "nexturl": "", "prevurl": ""}
+		"nextfacts": linkFacts("", pu, targets, trimTargets), "prevfacts": linkFacts("", pu, targets, trimTargets), "nexturl": "", "prevurl": ""}
 	if out.err == nil && out.res != nil {
 		nx, pv := out.res.PaginationInfo.NextPage, out.res.PaginationInfo.PrevPage
 		decode := func(s string) int {
@@ -314,7 +337,7 @@ func runPager(c Case, e *env) []Event {
 			return -1
 		}
 		obs["next"], obs["prev"] = decode(nx), decode(pv)
-		obs["nextfacts"], obs["prevfacts"] = linkFacts(nx, pu, targets), linkFacts(pv, pu, targets)
+		obs["nextfacts"], obs["prevfacts"] = linkFacts(nx, pu, targets, trimTargets), linkFacts(pv, pu, targets, trimTargets)
 		obs["nexturl"], obs["prevurl"] = nx, pv
 		if nx != "" {
 			count("next_found")
